@@ -41,6 +41,17 @@ def main(argv):
     from sa.index import AnalysisError, get_index, repo_root
     from sa.report import Check
     chk = Check(prop, tier)
+    # a check that does not end is a broken check: a wall-clock budget turns it into "no verdict" (exit 2)
+    budget = int(os.environ.get("VERIF_TIME_BUDGET", "0") or 0) or (1500 if tier == "quick" else 6 * 3600)
+
+    def _out_of_time(signum, frame):
+        raise AnalysisError("time budget of %d s exhausted (VERIF_TIME_BUDGET): the exploration does not converge on this source" % budget)
+    try:
+        import signal
+        signal.signal(signal.SIGALRM, _out_of_time)
+        signal.alarm(budget)
+    except (ImportError, ValueError, AttributeError):
+        pass
     try:
         mod = importlib.import_module("sa.props.%s" % prop.lower())
         _defer_rule_errors(chk)
